@@ -2,6 +2,7 @@
 from driver_common import main
 from lib.pyvals import to_py
 import json
+import warnings
 
 from playback.tape_cassette import TapeCassette
 from playback.tape_cassettes.s3.s3_tape_cassette import S3TapeCassette
@@ -31,7 +32,12 @@ def run_c14(case):
     m, me = code(lambda: TapeCassette.match_against_recorded_metadata({"k": f}, meta))
     # determinism: ask again
     v2, _ = code(lambda: TapeCassette._match_metadata_value(f, meta.get("k")))
-    out = {"value": v, "meta": m, "again": v2, "err": ve or me, "s3": 9}
+    # the interpreter's warnings configuration is not an input of matching: once more with every warning an error
+    # (python -W error, PYTHONWARNINGS=error, pytest filterwarnings = error)
+    with warnings.catch_warnings():
+        warnings.simplefilter("error")
+        w, we = code(lambda: TapeCassette.match_against_recorded_metadata({"k": f}, meta))
+    out = {"value": v, "meta": m, "again": v2, "err": ve or me, "s3": 9, "strict": w, "strict_err": we}
     if case.get("json_native"):
         # the S3 content filter: the same matcher applied to the JSON text of the stored metadata object
         # (s3_tape_cassette.py:247-260); comparable with the others when filter and metadata are JSON-native
